@@ -57,7 +57,7 @@ def createFt : Nat → Y → FR FtKind
         match kvGet "preferred-display-base" m with
         | none => pure ()
         | some (.str "binary") | some (.str "octal") | some (.str "decimal") | some (.str "hexadecimal") => pure ()
-        | some _ => throw (.crash "KeyError: preferred-display-base")
+        | some _ => Except.error (.crash "KeyError: preferred-display-base")
         alignmentProp m "alignment"
         let sz ← reqK "size" m
         match cls with
@@ -69,10 +69,10 @@ def createFt : Nat → Y → FR FtKind
               | .seq items => items.forM fun it => match it with
                 | .int _ => pure ()
                 | .seq (_ :: _ :: _) => pure ()
-                | .seq _ => throw (.crash "IndexError: range")
-                | _ => throw (.crash "assert type(range_node) is int")
-              | _ => throw (.crash "TypeError: mapping is not iterable")
-          | _ => throw (.crash "AttributeError: mappings.items")
+                | .seq _ => Except.error (.crash "IndexError: range")
+                | _ => Except.error (.crash "assert type(range_node) is int")
+              | _ => Except.error (.crash "TypeError: mapping is not iterable")
+          | _ => Except.error (.crash "AttributeError: mappings.items")
         | _ => pure ()
         match sz with
         | .int n => .ok (.int n)
@@ -86,7 +86,7 @@ def createFt : Nat → Y → FR FtKind
         let eft ← reqK "element-field-type" m
         let ek ← createFt fuel eft
         match ek with
-        | .struct | .darr => throw (.other "Nested structure and dynamic array field types are not supported")
+        | .struct | .darr => Except.error (.other "Nested structure and dynamic array field types are not supported")
         | _ => pure ()
         let _ ← reqK "length" m
         .ok .sarr
@@ -94,7 +94,7 @@ def createFt : Nat → Y → FR FtKind
         let eft ← reqK "element-field-type" m
         let ek ← createFt fuel eft
         match ek with
-        | .struct | .darr => throw (.other "Nested structure and dynamic array field types are not supported")
+        | .struct | .darr => Except.error (.other "Nested structure and dynamic array field types are not supported")
         | _ => pure ()
         .ok .darr
       | .str "structure" => do
@@ -104,8 +104,8 @@ def createFt : Nat → Y → FR FtKind
         | some (.seq ms) => do
           createMembers fuel ms []
           .ok .struct
-        | some _ => throw (.crash "TypeError: members")
-      | _ => throw (.crash "KeyError: class name")
+        | some _ => Except.error (.crash "TypeError: members")
+      | _ => Except.error (.crash "KeyError: class name")
     | _ => .error (.crash "TypeError: field type node is not a mapping")
 /-- `_create_struct_ft_members` -/
 def createMembers : Nat → List Y → List String → FR Unit
@@ -114,17 +114,17 @@ def createMembers : Nat → List Y → List String → FR Unit
   | fuel + 1, mem :: rest, seen =>
     match mem with
     | .map ((name, mv) :: _) => do
-      if seen.contains name then throw (.other s!"Duplicate member `{name}`")
+      if seen.contains name then Except.error (.other s!"Duplicate member `{name}`")
       validateIden name
       let mm ← match mv with
         | .map mm => pure mm
-        | _ => throw (.crash "TypeError: member node")
+        | _ => Except.error (.crash "TypeError: member node")
       let ft ← reqK "field-type" mm
       let ftm ← match ft with
         | .map ftm => pure ftm
-        | _ => throw (.crash "TypeError: field type node")
+        | _ => Except.error (.crash "TypeError: field type node")
       let cls ← reqK "class" ftm
-      if cls = .str "structure" then throw (.other "Nested structure field types are not supported")
+      if cls = .str "structure" then Except.error (.other "Nested structure field types are not supported")
       let _ ← createFt fuel ft
       createMembers fuel rest (name :: seen)
     | .map [] => .error (.crash "IndexError: empty member node")
@@ -161,7 +161,7 @@ def tryCreateStruct (fuel : Nat) (m : KVs) (k : String) : FR Unit :=
 def createErt (fuel : Nat) (name : String) (e : KVs) (common : Nat) : FR Unit := do
   validateIden name
   let n := common + memberCount (kvGetNN "specific-context-field-type" e) + memberCount (kvGetNN "payload-field-type" e)
-  if n = 0 then throw (.other "Event record type is empty (no members).")
+  if n = 0 then Except.error (.other "Event record type is empty (no members).")
   tryCreateStruct fuel e "specific-context-field-type"
   tryCreateStruct fuel e "payload-field-type"
 
@@ -175,8 +175,8 @@ def createDst (fuel : Nat) (clocks : List String) (name : String) (d : KVs) : FR
   validateIden name
   let hasClk ← match kvGetNN "$default-clock-type-name" d with
     | none => pure false
-    | some (.str c) => if clocks.contains c then pure true else throw (.other s!"Clock type `{c}` does not exist")
-    | some _ => throw (.other "Clock type does not exist")
+    | some (.str c) => if clocks.contains c then pure true else Except.error (.other s!"Clock type `{c}` does not exist")
+    | some _ => Except.error (.other "Clock type does not exist")
   let dfl : Option FtKind := some (.int 64)
   let tsD : Option FtKind := if hasClk then dfl else none
   let (idFt, tsFt) ← match kvGetNN "$features" d with
@@ -192,22 +192,22 @@ def createDst (fuel : Nat) (clocks : List String) (name : String) (d : KVs) : FR
         let _ ← featureFt fuel p "discarded-event-records-counter-snapshot-field-type" dfl
         let _ ← featureFt fuel p "sequence-number-field-type" none
         pure ()
-      | some _ => throw (.crash "AttributeError: packet features")
+      | some _ => Except.error (.crash "AttributeError: packet features")
       match kvGetNN "event-record" f with
       | none => pure (dfl, tsD)
       | some (.map er) => do
         let a ← featureFt fuel er "type-id-field-type" dfl
         let b ← featureFt fuel er "timestamp-field-type" tsD
         pure (a, b)
-      | some _ => throw (.crash "AttributeError: event record features")
-    | some _ => throw (.crash "AttributeError: features")
+      | some _ => Except.error (.crash "AttributeError: event record features")
+    | some _ => Except.error (.crash "AttributeError: features")
   let ertsV ← reqK "event-record-types" d
   let erts ← match ertsV with
     | .map em => pure em
-    | _ => throw (.crash "TypeError: event-record-types")
+    | _ => Except.error (.crash "TypeError: event-record-types")
   if idFt.isNone && erts.length > 1 then
-    throw (.other "Event record type ID field type feature is required")
-  if tooSmall idFt erts.length then throw (.other "type ID field type too small")
+    Except.error (.other "Event record type ID field type feature is required")
+  if tooSmall idFt erts.length then Except.error (.other "type ID field type too small")
   -- total size field type at least as wide as the content size field type
   let pktNode : KVs := match kvGetNN "$features" d with
     | some (.map f) => match kvGetNN "packet" f with | some (.map p) => p | _ => []
@@ -215,36 +215,36 @@ def createDst (fuel : Nat) (clocks : List String) (name : String) (d : KVs) : FR
   let total ← featureFt fuel pktNode "total-size-field-type" dfl
   let content ← featureFt fuel pktNode "content-size-field-type" dfl
   match total, content with
-  | some (.int a), some (.int b) => if a < b then throw (.other "total size field type narrower than content size field type") else pure ()
+  | some (.int a), some (.int b) => if a < b then Except.error (.other "total size field type narrower than content size field type") else pure ()
   | _, _ => pure ()
   match kvGetNN "packet-context-field-type-extra-members" d with
   | none => pure ()
   | some (.seq ms) => do
     createMembers fuel ms []
     ms.forM fun mem => match mem with
-      | .map ((n, _) :: _) => if reservedPcNames.contains n then throw (.other s!"member name `{n}` is reserved") else pure ()
+      | .map ((n, _) :: _) => if reservedPcNames.contains n then Except.error (.other s!"member name `{n}` is reserved") else pure ()
       | _ => pure ()
-  | some _ => throw (.crash "TypeError: extra members")
+  | some _ => Except.error (.crash "TypeError: extra members")
   let common := (if idFt.isSome then 1 else 0) + (if tsFt.isSome then 1 else 0) +
     memberCount (kvGetNN "event-record-common-context-field-type" d)
   erts.forM fun (en, ev) => match ev with
     | .map e => createErt fuel en e common
-    | _ => throw (.crash "AttributeError: event record type node")
+    | _ => Except.error (.crash "AttributeError: event record type node")
   tryCreateStruct fuel d "event-record-common-context-field-type"
 
 /-- `_create_config` (trace type, trace, default data stream type uniqueness) -/
 def pyChecks (fuel : Nat) (cfg : KVs) : FR Unit := do
   let trv ← reqK "trace" cfg
-  let tr ← match trv with | .map m => pure m | _ => throw (.crash "TypeError: trace")
+  let tr ← match trv with | .map m => pure m | _ => Except.error (.crash "TypeError: trace")
   let ttv ← reqK "type" tr
-  let tt ← match ttv with | .map m => pure m | _ => throw (.crash "TypeError: trace type")
+  let tt ← match ttv with | .map m => pure m | _ => Except.error (.crash "TypeError: trace type")
   -- clock types
   let clocks ← match kvGet "clock-types" tt with
     | none => pure []
     | some (.map cm) => do
       cm.forM fun (n, _) => validateIden n
       pure (cm.map (·.1))
-    | some _ => throw (.crash "AttributeError: clock-types")
+    | some _ => Except.error (.crash "AttributeError: clock-types")
   let hasUuid := (kvGetNN "uuid" tt).isSome
   let dfl : Option FtKind := some (.int 64)
   let dstIdFt ← match kvGetNN "$features" tt with
@@ -253,24 +253,24 @@ def pyChecks (fuel : Nat) (cfg : KVs) : FR Unit := do
       let _ ← featureFt fuel f "magic-field-type" dfl
       let _ ← featureFt fuel f "uuid-field-type" (if hasUuid then dfl else none)
       featureFt fuel f "data-stream-type-id-field-type" dfl
-    | some _ => throw (.crash "AttributeError: features")
+    | some _ => Except.error (.crash "AttributeError: features")
   let dstsV ← reqK "data-stream-types" tt
-  let dsts ← match dstsV with | .map m => pure m | _ => throw (.crash "TypeError: data-stream-types")
-  if dstIdFt.isNone && dsts.length > 1 then throw (.other "Data stream type ID field type feature is required")
-  if tooSmall dstIdFt dsts.length then throw (.other "data stream type ID field type too small")
+  let dsts ← match dstsV with | .map m => pure m | _ => Except.error (.crash "TypeError: data-stream-types")
+  if dstIdFt.isNone && dsts.length > 1 then Except.error (.other "Data stream type ID field type feature is required")
+  if tooSmall dstIdFt dsts.length then Except.error (.other "data stream type ID field type too small")
   dsts.forM fun (n, dv) => match dv with
     | .map d => createDst fuel clocks n d
-    | _ => throw (.crash "AttributeError: data stream type node")
+    | _ => Except.error (.crash "AttributeError: data stream type node")
   -- environment variable names
   match kvGetNN "environment" tr with
   | none => pure ()
   | some (.map env) => env.forM fun (n, _) => validateIden n
-  | some _ => throw (.crash "TypeError: environment")
+  | some _ => Except.error (.crash "TypeError: environment")
   -- at most one default data stream type
   let ndef := (dsts.filter fun (_, dv) => match dv with
     | .map d => kvGet "$is-default" d = some (.bool true)
     | _ => false).length
-  if ndef > 1 then throw (.other "Duplicate default data stream type")
+  if ndef > 1 then Except.error (.other "Duplicate default data stream type")
 
 inductive Verdict
   | accept
@@ -292,9 +292,9 @@ def load3 (store : Store) (W : World) (fuel : Nat) (cfg : KVs) : FR KVs := do
   let tr1 ← procInclude W fuel [] .trace tr
   let cfg1 := kvSet "trace" tr1 cfg
   schemaStage store fuel "config/3/config-pre-field-type-expansion" (.map cfg1)
-  let trm ← match tr1 with | .map m => pure m | _ => throw (.crash "TypeError: trace")
+  let trm ← match tr1 with | .map m => pure m | _ => Except.error (.crash "TypeError: trace")
   let ttv ← reqK "type" trm
-  let tt ← match ttv with | .map m => pure m | _ => throw (.crash "TypeError: trace type")
+  let tt ← match ttv with | .map m => pure m | _ => Except.error (.crash "TypeError: trace type")
   let tt1 ← expandFts3 fuel tt
   let cfg2 := kvSet "trace" (.map (kvSet "type" (.map tt1) trm)) cfg
   schemaStage store fuel "config/3/config-pre-log-level-alias-sub" (.map cfg2)
